@@ -480,10 +480,25 @@ fn enc_index(i: &FieldIndex) -> Sexp {
     }
 }
 
+fn enc_fmt(f: wirefilter::BytesFormat) -> Option<Sexp> {
+    match f {
+        wirefilter::BytesFormat::Quoted => None,
+        wirefilter::BytesFormat::Byte => Some(Sexp::sym("byte")),
+        wirefilter::BytesFormat::Raw(n) => Some(Sexp::tagged("raw", vec![Sexp::int(n as i64)])),
+    }
+}
+
+fn with_fmt(mut v: Vec<Sexp>, f: wirefilter::BytesFormat) -> Vec<Sexp> {
+    if let Some(x) = enc_fmt(f) {
+        v.push(x);
+    }
+    v
+}
+
 fn enc_rhs(r: &RhsValue) -> Sexp {
     match r {
         RhsValue::Int(i) => Sexp::tagged("i", vec![Sexp::int(*i)]),
-        RhsValue::Bytes(b) => Sexp::tagged("s", vec![Sexp::Bytes(b.to_vec())]),
+        RhsValue::Bytes(b) => Sexp::tagged("s", with_fmt(vec![Sexp::Bytes(b.to_vec())], b.format())),
         RhsValue::Ip(ip) => {
             let (t, n) = enc_ip(ip);
             Sexp::tagged(t, vec![Sexp::uint(n)])
@@ -508,7 +523,22 @@ fn enc_cmpop(info: &SchemeInfo, lhs: &IndexExpr, op: &ComparisonOpExpr) -> Sexp 
         ComparisonOpExpr::IsTrue => Sexp::sym("istrue"),
         ComparisonOpExpr::Ordering { op, rhs } => Sexp::tagged("ord", vec![Sexp::sym(enc_ordop(*op)), enc_rhs(rhs)]),
         ComparisonOpExpr::Int { rhs, .. } => Sexp::tagged("band", vec![Sexp::int(*rhs)]),
-        ComparisonOpExpr::Contains(b) => Sexp::tagged("contains", vec![Sexp::Bytes(b.to_vec())]),
+        ComparisonOpExpr::Contains(b) => Sexp::tagged("contains", with_fmt(vec![Sexp::Bytes(b.to_vec())], b.format())),
+        ComparisonOpExpr::Matches(re) => {
+            let mut v = vec![Sexp::Bytes(re.as_str().as_bytes().to_vec())];
+            if let wirefilter::RegexFormat::Raw(n) = re.format() {
+                v.push(Sexp::tagged("raw", vec![Sexp::int(n as i64)]));
+            }
+            Sexp::tagged("matches", v)
+        }
+        ComparisonOpExpr::Wildcard(w) => Sexp::tagged(
+            "wildcard",
+            with_fmt(vec![Sexp::boolean(false), Sexp::Bytes(w.pattern().to_vec())], w.pattern().format()),
+        ),
+        ComparisonOpExpr::StrictWildcard(w) => Sexp::tagged(
+            "wildcard",
+            with_fmt(vec![Sexp::boolean(true), Sexp::Bytes(w.pattern().to_vec())], w.pattern().format()),
+        ),
         ComparisonOpExpr::OneOf(vals) => match vals {
             RhsValues::Int(rs) => Sexp::tagged(
                 "in-int",
@@ -521,9 +551,17 @@ fn enc_cmpop(info: &SchemeInfo, lhs: &IndexExpr, op: &ComparisonOpExpr) -> Sexp 
                         .collect(),
                 )],
             ),
-            RhsValues::Bytes(bs) => {
-                Sexp::tagged("in-bytes", vec![Sexp::list(bs.iter().map(|b| Sexp::Bytes(b.to_vec())).collect())])
-            }
+            RhsValues::Bytes(bs) => Sexp::tagged(
+                "in-bytes",
+                vec![Sexp::list(
+                    bs.iter()
+                        .map(|b| match enc_fmt(b.format()) {
+                            None => Sexp::Bytes(b.to_vec()),
+                            Some(f) => Sexp::list(vec![Sexp::Bytes(b.to_vec()), f]),
+                        })
+                        .collect(),
+                )],
+            ),
             RhsValues::Ip(rs) => Sexp::tagged(
                 "in-ip",
                 vec![Sexp::list(
